@@ -153,6 +153,25 @@ async def a_A_a_union(x: Any, *, r: Union[A, None] = resource("a"), k: Any = Non
 _reg("a_A_a_union", a_A_a_union, True, [("r", "A", "a", True)], "union")
 
 
+# -- None listed first: `None | T`, Union[None, T]
+@inject
+async def a_B_b_nonefirst(x: Any, *, r: None | B = resource("b"), k: Any = None) -> Any:
+    BODY_RAN.add(CALL.get())
+    return {"x": x, "k": k, "r": [r]}
+
+
+_reg("a_B_b_nonefirst", a_B_b_nonefirst, True, [("r", "B", "b", True)], "nonefirst")
+
+
+@inject
+def s_A_a_union_nonefirst(x: Any, *, r: Union[None, A] = resource("a"), k: Any = None) -> Any:
+    BODY_RAN.add(CALL.get())
+    return {"x": x, "k": k, "r": [r]}
+
+
+_reg("s_A_a_union_nonefirst", s_A_a_union_nonefirst, False, [("r", "A", "a", True)], "nonefirst")
+
+
 # -- two dependencies resolved in order, one optional
 @inject
 async def a_two(x: Any, *, r1: A = resource(), r2: Optional[B] = resource("b"), k: Any = None) -> Any:
